@@ -273,12 +273,16 @@ class StreamWriter(AbstractStreamWriter):
 
         self._eof = True
 
-    async def write_eof(self, chunk: bytes = b"") -> None:
+    async def write_eof(self, chunk: bytes | bytearray | memoryview = b"") -> None:
         if self._eof:
             return
 
         if chunk and self._on_chunk_sent is not None:
             await self._on_chunk_sent(chunk)
+
+        if isinstance(chunk, memoryview) and chunk.nbytes != len(chunk):
+            # just reshape it, as write() does: lengths below are in bytes
+            chunk = chunk.cast("c")
 
         # Handle body/compression
         if self._compress:
